@@ -170,7 +170,7 @@ func (g *Gen) exhOneShot(prop, sel string) {
 // exhStable: every enumerated string b (without the trailer) extended by each of a few suffixes
 func (g *Gen) exhStable(prop, sel string) {
 	d := g.budget(0, 1)
-	sfx := []string{"\r\nX", " ", "a", "\r\n ", "1", ";"}
+	sfx := []string{"\r\nX", " ", "a", "\r\n ", "\nX", ";"}
 	for _, s := range exhSpecs(d, sel) {
 		tr := s.trailer
 		s.trailer = ""
